@@ -156,6 +156,7 @@ def tlc_scenarios(check, n, depth):
             sc = scenario_from_behaviour(parse_behaviour_file(os.path.join(sub, f)), 0, SIM["NC"])
             if sc is not None:
                 sc["retry"] = retry == "TRUE"
+                sc["net"]["attack"] = sc["retry"]
                 out.append(sc)
     return out
 
@@ -331,7 +332,10 @@ def run(check):
     check.assumptions += [
         "applications follow the API contract: one wait_connected() at a time, no cancellation of awaiting tasks, "
         "QuicServer.close() is not called while connections are live",
-        "network faults are drop, duplicate, bounded delay, reordering and NAT rebinding of client Initials; datagrams are not corrupted",
+        "network faults are drop, duplicate, bounded delay, reordering and NAT rebinding of client Initials; datagrams are not corrupted; "
+        "in retry scenarios an on-path attacker replays the client's token-carrying Initial from foreign source addresses "
+        "(same IP with port +256, +512, -256, ^0x100; another IP with the same and with another port) when it first sees it "
+        "and again after the genuine server connection terminated",
         "executing a callback advances the virtual clock by 1 microsecond (a frozen clock lets a loss timer whose deadline rounds to 'now' re-arm forever)",
         "complete delivery followed by EOF is demanded only in runs without drops where nobody closes before the "
         "echoes were read (otherwise: what was read is a prefix, and an EOF on a live connection comes after everything written)",
@@ -386,6 +390,8 @@ def run(check):
         check.count(json.dumps(sc, sort_keys=True), nontrivial=st["nonfifo"] > 0, evaluations=len(ls))
         for k, v in st.items():
             agg[k] = round(agg.get(k, 0) + v, 3)
+    if not agg.get("spoofed"):
+        raise MachineryError("vacuous run: the token-replay attacker never sent a datagram")
     check.cov["events"] = ops
     check.cov["schedule_totals"] = agg
     check.cov["scenarios"] = {"random": len(scenarios), "from_tlc_behaviours": len(derived)}
